@@ -76,4 +76,12 @@ theorem gen_unfold_leaves_probes_alone :
       | some i => handler genEnv k i == some "reflect"
       | none => false) = true := by decide
 
+/-- **Constructing a Memoize is pure with respect to the stack**: `Memoize.__init__` stores the base
+    it is given, and neither looks at the active interpretation nor layers anything — the source form
+    behind `Ctx.built` / `prebuilt_enters_at_enter_time`. -/
+theorem gen_memoize_init_pure :
+    memoizeInitBase = "base_interpretation" ∧
+    (memoizeInitCalls.contains "get_interpretation" || memoizeInitCalls.contains "PrioritizedInterpretation"
+      || memoizeInitCalls.contains "interpreter.get_interpretation") = false := by decide
+
 end FV.Props.C17.Tables
